@@ -53,7 +53,8 @@ def _metadata(harness, all_features=False):
                                  env=dict(os.environ, CARGO_NET_OFFLINE="true")).stdout
             doc = json.loads(out)
             _meta[key] = doc["packages"]
-            _meta["resolve:" + harness] = doc.get("resolve") or {}
+            if not all_features:      # crate_features reads the resolve graph of the harness's OWN feature set
+                _meta["resolve:" + harness] = doc.get("resolve") or {}
         except (OSError, subprocess.SubprocessError, ValueError, KeyError) as e:
             raise ValueError("cargo metadata --offline in harness/%s failed: %s" % (harness, e))
     return _meta[key]
